@@ -15,7 +15,48 @@ import (
 	"sort"
 	"strings"
 	"testing"
+
+	"go.uber.org/zap"
+	"go.uber.org/zap/zapcore"
+
+	"go.opentelemetry.io/collector/component"
+	"go.opentelemetry.io/collector/config/configtelemetry"
+	"go.opentelemetry.io/collector/confmap"
+	"go.opentelemetry.io/collector/service/telemetry"
 )
+
+// vSettings: Settings and Config of the real service.New for one generated configuration.
+func vSettings(w *vWorld, cfg vCfg) (Settings, Config) {
+	m := vMaps(w, cfg)
+	set := Settings{
+		BuildInfo:        component.NewDefaultBuildInfo(),
+		CollectorConf:    confmap.New(),
+		ReceiversConfigs: m.rc, ReceiversFactories: m.rf,
+		ProcessorsConfigs: m.pc, ProcessorsFactories: m.pf,
+		ExportersConfigs: m.ec, ExportersFactories: m.ef,
+		ConnectorsConfigs: m.cc, ConnectorsFactories: m.cf,
+		ExtensionsConfigs: m.xc, ExtensionsFactories: m.xf,
+		AsyncErrorChannel: make(chan error),
+		// discard sink: whatever passes the level filter goes nowhere
+		LoggingOptions: []zap.Option{zap.WrapCore(func(zapcore.Core) zapcore.Core { return zapcore.NewNopCore() })},
+	}
+	conf := Config{
+		Extensions: m.xs,
+		Pipelines:  m.pcs,
+		Telemetry: telemetry.Config{
+			Logs: telemetry.LogsConfig{
+				Level:             zapcore.ErrorLevel,
+				Encoding:          "console",
+				OutputPaths:       []string{"stderr"},
+				ErrorOutputPaths:  []string{"stderr"},
+				DisableCaller:     true,
+				DisableStacktrace: true,
+			},
+			Metrics: telemetry.MetricsConfig{Level: configtelemetry.LevelNone},
+		},
+	}
+	return set, conf
+}
 
 func vErrClass(err error) string {
 	msg := err.Error()
@@ -189,6 +230,22 @@ func TestVerifC10Lifecycle(t *testing.T) {
 			w.failStop[l] = true
 		}
 
+		// hooks of Service.Start: NotifyConfig (all watchers are called, any error aborts) and PipelineWatcher.Ready
+		var fnotify, fready []string
+		if len(w.exts) > 0 && rnd.IntN(10) == 0 {
+			fnotify = append(fnotify, w.exts[rnd.IntN(len(w.exts))])
+		}
+		if len(w.exts) > 0 && rnd.IntN(10) == 0 {
+			fready = append(fready, w.exts[rnd.IntN(len(w.exts))])
+		}
+		for _, l := range fnotify {
+			out.Linef("op failnotify %s", l)
+			w.failNotify[l] = true
+		}
+		for _, l := range fready {
+			out.Linef("op failready %s", l)
+			w.failReady[l] = true
+		}
 		out.Linef("op run")
 		// otelcol/collector.go: setupConfigurationComponents calls Start and, when it fails, shutdown();
 		// otherwise shutdown() runs when the collector exits. Either way Shutdown is called exactly once.
@@ -201,13 +258,21 @@ func TestVerifC10Lifecycle(t *testing.T) {
 			stopErr, stopPanic = vCall(srv.Shutdown)
 		}
 
-		var stops, stopFails []string
+		var stops, stopFails, startLog, stopLog []string
 		for _, e := range w.log {
 			res := "ok"
 			if e.fail {
 				res = "fail"
 			}
 			out.Linef("tr ev %s %s %s", e.kind, e.label, res)
+			switch e.kind {
+			case "start", "istart":
+				startLog = append(startLog, e.label+"="+res)
+			case "notify", "ready":
+				startLog = append(startLog, e.kind+"."+e.label+"="+res)
+			case "stop", "istop":
+				stopLog = append(stopLog, e.label+"="+res)
+			}
 			if e.kind == "stop" || e.kind == "istop" {
 				stops = append(stops, e.label)
 				if e.fail {
@@ -247,7 +312,11 @@ func TestVerifC10Lifecycle(t *testing.T) {
 		} else {
 			out.Linef("obs shutdown ok")
 		}
-		if usesConn || extDep || len(fstart)+len(fstop) > 0 || (cfg.shared != 0 || cfg.sharedExp != 0 || cfg.sharedConn != 0) {
+		// the complete logs, in order: diffed EXACTLY against the model's Service.Start / Service.Shutdown run with the
+		// topological orders reconstructed from this very log (the driver checks them with isTopoB)
+		out.Linef("obs startlog %d %s", len(startLog), strings.Join(startLog, " "))
+		out.Linef("obs stoplog %d %s", len(stopLog), strings.Join(stopLog, " "))
+		if usesConn || extDep || len(fstart)+len(fstop)+len(fnotify)+len(fready) > 0 || (cfg.shared != 0 || cfg.sharedExp != 0 || cfg.sharedConn != 0) {
 			out.Linef("nt")
 		}
 		out.Linef("stat built 1")
